@@ -222,6 +222,51 @@ def p_to_matrix(ctx, c, outs):
     return None
 
 
+def p_sequence(ctx, c, outs):
+    """all conversions (and the axis / angle reads they share code with) on ONE object, in a seeded order: the object's
+    data must not change, so a later conversion of the same object still describes the same rotation"""
+    I = _imp()
+    w = quiet()
+    try:
+        obj, ref, shp = build(c)
+        if obj.size == 0:
+            return None
+        r = Rep(ctx, "sequence", c)
+        before = np.array(obj.data, copy=True)
+        src = obj.data          # anything sharing memory with the object
+        calls = {"to_matrix": lambda: obj.to_matrix(), "to_euler": lambda: obj.to_euler(),
+                 "to_axes_angles": lambda: obj.to_axes_angles(), "to_homochoric": lambda: obj.to_homochoric(),
+                 "to_rodrigues_frank": lambda: obj.to_rodrigues(frank=True), "axis": lambda: obj.axis,
+                 "angle": lambda: obj.angle, "AxAngle.from_rotation": lambda: I["AxAngle"].from_rotation(obj),
+                 "Homochoric.from_rotation": lambda: I["Homochoric"].from_rotation(obj)}
+        if "Homochoric" not in I or "AxAngle" not in I:
+            calls = {k: v for k, v in calls.items() if "from_rotation" not in k}
+        names = list(calls)
+        order = [names[i] for i in c["order"] if i < len(names)]
+        for step, nm in enumerate(order):
+            with np.errstate(all="ignore"):
+                try:
+                    calls[nm]()
+                except Exception as e:
+                    r.whole("raises", f"step {step} {nm} raises {type(e).__name__}: {str(e)[:100]}")
+                    return None
+            now = np.asarray(obj.data)
+            if now.shape != before.shape or not np.array_equal(now, before, equal_nan=True):
+                bad = np.flatnonzero((now.reshape(-1, 4) != before.reshape(-1, 4)).any(axis=1))
+                i = int(bad[0]) if bad.size else 0
+                r.whole("operand", f"after {' -> '.join(order[:step + 1])} the object's data changed: element {i} "
+                                   f"{before.reshape(-1, 4)[i].tolist()} -> {now.reshape(-1, 4)[i].tolist()}")
+                return None
+        etol = 1e-6 if c.get("dtype") == "float32" else 1e-12
+        Mf = obj.to_matrix().reshape(-1, 3, 3)
+        d = np.abs(Mf - ref_matrix(ref)).max(axis=(1, 2))
+        r.elems("after", d > etol, lambda i: f"after {' -> '.join(order)} to_matrix of the same object = {Mf[i].tolist()} no "
+                                             f"longer is the matrix of q = {ref[i].tolist()}")
+    finally:
+        w.__exit__(None, None, None)
+    return None
+
+
 def p_to_euler(ctx, c, outs):
     I = _imp()
     w = quiet()
@@ -769,6 +814,7 @@ SITES = {
     "to_rodrigues_frank": sites.Site("to_rodrigues_frank", "prop", p_to_rodrigues_frank),
     "to_homochoric": sites.Site("to_homochoric", "prop", p_to_homochoric),
     "act": sites.Site("act", "prop", p_act),
+    "sequence": sites.Site("sequence", "prop", p_sequence),
     "from_euler": sites.Site("from_euler", "prop", p_from_euler),
     "from_matrix": sites.Site("from_matrix", "prop", p_from_matrix),
     "from_axes_angles": sites.Site("from_axes_angles", "prop", p_from_axes_angles),
@@ -993,6 +1039,11 @@ def generate(ctx):
                 if rnd == 0 and site == "to_euler":
                     ctx.sample({"site": site, **c})
                 yield site, c
+            if n and dt != "int":
+                cs = dict(c)
+                cs["order"] = [int(x) for x in rng.permutation(9)]
+                ctx.count(f"sequence/{s}", ("seq", qs, cs["order"]), nontrivial=nontriv)
+                yield "sequence", cs
             if n:
                 ca = dict(c)
                 ca["v"] = G.vec(rng)
